@@ -33,6 +33,17 @@ EdgeFails(it) ==
     \* points() enumerates all width x height points (it[6] = points().count())
     \cup (IF it[6] = r[3] * r[4] THEN {} ELSE {"points_of_edge_rectangle_incomplete"})
 
+\* intersections of NON-EMPTY rectangles that end on / near i32::MAX, written with inclusive last columns / rows
+\* (x + w does not fit the specification's integers there).  item = <<a, b, a.intersection(b), b.intersection(a), panicked>>
+EdgeInterOK(a, b, r) ==
+  LET l == Max(a[1], b[1])  rr == Min(a[1] + (a[3] - 1), b[1] + (b[3] - 1))
+      t == Max(a[2], b[2])  bb == Min(a[2] + (a[4] - 1), b[2] + (b[4] - 1)) IN
+  IF l <= rr /\ t <= bb THEN r = <<l, t, rr - l + 1, bb - t + 1>> ELSE (r[3] = 0 \/ r[4] = 0)
+EdgeBinFails(it) ==
+  IF it[5] = 1 THEN {"edge_intersection_panicked"}
+  ELSE   (IF EdgeInterOK(it[1], it[2], it[3]) THEN {} ELSE {"edge_inter_set"})
+    \cup (IF EdgeInterOK(it[2], it[1], it[4]) THEN {} ELSE {"edge_inter_rev_set"})
+
 \* doubled middle of a side that is treated as at least one pixel long
 Mid2(pos, len) == 2 * pos + Max(len, 1) - 1
 AnchorCOK(pos, len, k, v) ==
